@@ -26,7 +26,8 @@ vars == <<cid, l, conf, bad>>
 Rec(c) == Cases[c].records
 N(c) == Len(Rec(c))
 
-ErrorOnly == {"cfgbad", "evalexc", "unknown", "badargs", "unser"}
+ErrorOnly == {"cfgbad", "evalexc", "unknown", "badargs", "unser",
+              "evalbase"}     \* evaluated code raising SystemExit / KeyboardInterrupt / another BaseException, or an exception without a usable message
 
 Fail(c, clause, detail) == PrintT(ToJson(<<"VFAIL", "C15", Cases[c].id, clause, detail>>))
 Check(c, ok, clause, detail) == IF ok THEN TRUE ELSE Fail(c, clause, detail)
